@@ -28,13 +28,13 @@ func vpFirstXFF(h string) string {
 }
 
 func vpIsSpace(c byte) bool {
-	return c == ' ' || c == '\t' || c == '\n' || c == '\v' || c == '\f' || c == '\r'
+	return vpOr(vpOr(c == ' ', c == '\t'), vpOr(vpOr(c == '\n', c == '\v'), vpOr(c == '\f', c == '\r')))
 }
 
 //vp:property C04
-//vp:set x 4 7
+//vp:set x 4 6
 //vp:set budget 60 600
-//vp:bounds X-Forwarded-For absent or any ASCII string of <= x bytes (commas, blanks, empty elements); peer address one of {"192.0.2.9:4242", "[2001:db8::1]:80", "nohostport", ""}; new or existing session
+//vp:bounds X-Forwarded-For absent or any ASCII string of <= x bytes (4 quick, 6 thorough) (commas, blanks, empty elements); peer address one of {"192.0.2.9:4242", "[2001:db8::1]:80", "nohostport", ""}; new or existing session
 //vp:assume header bytes are ASCII (< 0x80): strings.TrimSpace's Unicode path is outside the bound
 //vp:reach xff peer
 func VP_C04_enrich() {
